@@ -96,10 +96,28 @@ func groupRef(rows []crow) stream.Bag {
 		if x.all <= 0 {
 			continue
 		}
-		row := []octosql.Value{x.key, octosql.NewInt(int64(x.all)), octosql.NewNull(), octosql.NewNull()}
+		row := []octosql.Value{x.key, octosql.NewInt(int64(x.all)), octosql.NewNull(), octosql.NewNull(), octosql.NewNull(), octosql.NewNull(), octosql.NewNull()}
 		if x.cnt > 0 {
 			row[2] = octosql.NewInt(int64(x.cnt))
 			row[3] = octosql.NewInt(x.sum)
+			// min, max, avg over the non-NULL inputs that are still present
+			first := true
+			var mn, mx int64
+			for _, r := range rows {
+				if stream.ValKey(r.vals[0]) != stream.ValKey(x.key) || r.vals[1].TypeID == octosql.TypeIDNull || r.n <= 0 {
+					continue
+				}
+				v := r.vals[1].Int
+				if first || v < mn {
+					mn = v
+				}
+				if first || v > mx {
+					mx = v
+				}
+				first = false
+			}
+			row[4], row[5] = octosql.NewInt(mn), octosql.NewInt(mx)
+			row[6] = octosql.NewInt(x.sum / int64(x.cnt))
 		}
 		out.Add(stream.ValsKey(row), 1)
 	}
@@ -107,9 +125,10 @@ func groupRef(rows []crow) stream.Bag {
 }
 
 func groupBuild(trigger func() execution.Trigger) func(src execution.Node) execution.Node {
-	protos := []func() nodes.Aggregate{aggregates.NewCountPrototype(), aggregates.NewCountPrototype(), aggregates.NewSumIntPrototype()}
-	// count(*) is planned as count over a constant; count(col1), sum(col1)
-	exprs := []execution.Expression{constInt(1), col(1), col(1)}
+	protos := []func() nodes.Aggregate{aggregates.NewCountPrototype(), aggregates.NewCountPrototype(), aggregates.NewSumIntPrototype(),
+		aggregates.NewMinPrototype(), aggregates.NewMaxPrototype(), aggregates.NewAverageIntPrototype()}
+	// count(*) is planned as count over a constant; count(col1), sum(col1), min(col1), max(col1), avg(col1)
+	exprs := []execution.Expression{constInt(1), col(1), col(1), col(1), col(1), col(1)}
 	keys := []execution.Expression{col(0)}
 	return func(src execution.Node) execution.Node {
 		if trigger == nil {
@@ -312,6 +331,7 @@ func changelogOpts(maxLen int, times []int, watermarks bool) stream.ScriptOpts {
 		{octosql.NewInt(1), octosql.NewInt(2)},
 		{octosql.NewInt(2), octosql.NewInt(1)},
 		{octosql.NewNull(), octosql.NewInt(1)},
+		{octosql.NewInt(1), octosql.NewNull()}, // a NULL aggregate input that keeps its group alive
 	}
 	return stream.ScriptOpts{Rows: rows, Times: times, MaxLen: maxLen, Retractions: true, Watermarks: watermarks}
 }
